@@ -14,7 +14,9 @@ template <class T>
 struct DataArray
 {
    T* data; int thesize;
+   int themax;   /* capacity of the stub's fixed memory block; only read by reSize() (wrappers that use reSize set it) */
    int size() const { return thesize; }
+   void reSize(int n) { __CPROVER_assert(0 <= n && n <= themax, "DataArray::reSize within the stub's fixed capacity"); thesize = n; }
    T& operator[](int n) { __CPROVER_assert(0 <= n && n < thesize, "DataArray index in bounds"); DATAARRAY_READ_INVARIANT(data[n]); return data[n]; }
    const T& operator[](int n) const { __CPROVER_assert(0 <= n && n < thesize, "DataArray index in bounds"); DATAARRAY_READ_INVARIANT(data[n]); return data[n]; }
    T* get_ptr() { return data; }
